@@ -124,9 +124,19 @@ class Probe:
     def find_fn(self, segs, args=None):
         if len(segs) == 1:
             cands = [fn for fn in self.f.fns.values() if fn.impl is None and fn.name == segs[0] and not fn.test]
-            same = [fn for fn in cands if tuple(fn.module) == self.module]
+            same = [fn for fn in cands if tuple(fn.module) == tuple(self.module or ())]
             if same:
                 return same[0]
+            # a (possibly renaming) import of the module the code is written in: `use a::b::f as g;`
+            for u in self.f.uses.get(tuple(self.module or ()), []):
+                if u.get("glob") or (u.get("alias") or (u.get("path") or [None])[-1]) != segs[0]:
+                    continue
+                tail = [x for x in u["path"] if x not in ("crate", "self", "super")]
+                hits = [fn for key, fn in self.f.fns.items() if tail and fn.impl is None and not fn.test and fn.name == tail[-1] and (key == "::".join(tail) or key.endswith("::" + "::".join(tail)) or "::".join(tail).endswith(key))]
+                if len(hits) == 1:
+                    return hits[0]
+                if tail and tail[-1] != segs[0]:
+                    return None  # renamed import of something else: not the crate's function of that name
             return cands[0] if len(cands) == 1 else None
         ty = segs[-2]
         if ty == "Self":
@@ -186,9 +196,19 @@ class Probe:
             segs = p["segs"]
             if segs == ["None"]:
                 return {} if v is None else None
-            ce = self.const(segs[-1])
-            if ce is not None and not (isinstance(v, tuple) and v and v[0] == "enum"):
-                return {} if self.ev(ce, {}) == v else None
+            # a variant of the matched enum, or a constant (`FormatSpecial::LINE_FEED`, `MAX`): a constant pattern matches the
+            # values equal to the constant
+            v_enum = v[1].split("::")[0] if isinstance(v, tuple) and v and v[0] == "enum" and "::" in v[1] else None
+            owner = segs[-2] if len(segs) >= 2 else v_enum
+            if owner == "Self":
+                owner = self.selfty
+            is_variant = owner in self.f.enums and any(vv["name"] == segs[-1] for vv in self.f.enums[owner]["variants"])
+            ce = None if is_variant else self.const(segs[-1])
+            if ce is not None:
+                cv = self.ev(ce, {})
+                if isinstance(cv, Opq) or _has_opq(cv) or _has_opq(v):
+                    raise NoEval("constant pattern %s against an unknown" % "::".join(segs))
+                return {} if cv == v else None
             if isinstance(v, tuple) and v and v[0] == "enum":
                 return {} if v[1].split("::")[-1] == segs[-1] and not v[2] else None
             raise NoEval("path pattern %s" % "::".join(segs))
